@@ -9,7 +9,7 @@
    comparison to the caller.  The theorems below say what that returned tag is. *)
 From Coq Require Import List NArith Arith Bool Lia.
 From GmsmVerif Require Import Lib.Outcome SM4.SM4Spec SM4.ModesSpec SM4.ModesProofs SM4.GCMSpec SM4.GCMField SM4.GCMModel
-  SM4.GCMProofs SM4.GCMProofs2.
+  SM4.GCMProofs SM4.GCMProofs2 SM4.GCMProofs3.
 Import ListNotations.
 Local Open Scope nat_scope.
 
@@ -144,6 +144,45 @@ Print Assumptions C12_tag_depends_on_all.
 Theorem C12_bad_key_rejected : forall E K IV X A mode, length K <> 16 -> Sm4GCM E K IV X A mode = Err 1.
 Proof. intros E K IV X A mode H. destruct (Sm4GCM_spec E K IV X A mode) as [H1 _]. exact (H1 H). Qed.
 Print Assumptions C12_bad_key_rejected.
+
+(* a difference confined to one 16-byte block Delta of the GHASH input (k blocks, the length block included,
+   behind it) leaves the returned tag unchanged exactly when Delta . H^(k+1) = 0 in GF(2^128); that this
+   product is non-zero for Delta <> 0 and H <> 0 (the field has no zero divisors) is not proved here *)
+Theorem C12_single_block_difference : forall E K IV A C A' C' n j k D, gcm_cipher E ->
+  length K = 16 -> bytes_ok IV = true -> bytes_ok A = true -> bytes_ok C = true ->
+  bytes_ok A' = true -> bytes_ok C' = true ->
+  let H := hash_key (E K) in
+  let X := pad0 A ++ pad0 C ++ len64 A ++ len64 C in
+  let X' := pad0 A' ++ pad0 C' ++ len64 A' ++ len64 C' in
+  length X = 16 * n -> length X' = 16 * n -> length D = 16 ->
+  xor_bytes X X' = repeat 0%N (16 * j) ++ D ++ repeat 0%N (16 * k) ->
+  (omap snd (Sm4GCM E K IV C A false) = omap snd (Sm4GCM E K IV C' A' false) <->
+   iterf k (fun y => gf_mul_bytes y H) (gf_mul_bytes D H) = repeat 0%N 16).
+Proof.
+  intros E K IV A C A' C' n j k D HE HK HIV HA HC HA' HC' H X X' HX HX' HD Hdiff.
+  destruct (C12_tag_depends_on_all E K IV A C A' C' HE HK HIV HA HC HA' HC') as [_ Hiff].
+  cbv zeta in Hiff. fold H X X' in Hiff. rewrite Hiff.
+  destruct HE as [H1 H2].
+  assert (OK : forall a c, bytes_ok a = true -> bytes_ok c = true ->
+               bytes_ok (pad0 a ++ pad0 c ++ len64 a ++ len64 c) = true).
+  { intros a c Ha Hc. unfold len64. rewrite !bytes_ok_app, !pad0_ok, !bytes_of_int_ok by assumption. reflexivity. }
+  apply (ghash_difference H X X' n j k D); try assumption.
+  - apply E_blk16; assumption.
+  - apply OK; assumption.
+  - apply OK; assumption.
+Qed.
+Print Assumptions C12_single_block_difference.
+
+(* the hypotheses are satisfiable: one bit of A flipped *)
+Example C12_example_single_block :
+  let A := [1; 2]%N in let A' := [1; 3]%N in let C := [7]%N in
+  let X := pad0 A ++ pad0 C ++ len64 A ++ len64 C in
+  let X' := pad0 A' ++ pad0 C ++ len64 A' ++ len64 C in
+  length X = 16 * 3 /\ length X' = 16 * 3 /\
+  xor_bytes X X' = repeat 0%N (16 * 0) ++ (0 :: 1 :: repeat 0 14)%N ++ repeat 0%N (16 * 2) /\
+  iterf 2 (fun y => gf_mul_bytes y (hash_key (sm4_encrypt_block A1_key)))
+        (gf_mul_bytes (0 :: 1 :: repeat 0 14)%N (hash_key (sm4_encrypt_block A1_key))) <> repeat 0%N 16.
+Proof. vm_compute. repeat split; try reflexivity. intros H. discriminate H. Qed.
 
 (* ---- non-vacuity: SM4 instances, evaluated ------------------------------------------------------------------------------ *)
 Example C12_example_rfc8998 :
